@@ -79,6 +79,19 @@ theorem match_size_is_text_span (F : Fold) (pat text : List Nat) (p : Nat) (ha :
   rw [Prod.ext_iff]
   exact ⟨by rw [h1]; omega, by rw [h2, ho]⟩
 
+/-- **C08 by construction**: a `query.Regexp` whose tree is a bare literal (of at least 3 bytes) is evaluated by the very
+    same match tree as the `query.Substring` with that pattern — for every text, no fold-table hypothesis. -/
+theorem C08_by_construction (rs : List Nat) (cs : Bool) (h : byteLen rs ≥ 3) :
+    treeOfRegexpLit rs false cs = treeOfSubstring rs cs := by
+  unfold treeOfRegexpLit treeOfSubstring
+  simp [h]
+
+/-- … and a literal carrying `(?i)` is evaluated as the case-insensitive substring, whatever the query's case flag -/
+theorem C08_by_construction_folded (rs : List Nat) (cs : Bool) (h : byteLen rs ≥ 3) :
+    treeOfRegexpLit rs true cs = treeOfSubstring rs false := by
+  unfold treeOfRegexpLit treeOfSubstring
+  simp [h]
+
 /-- **the literal → substring optimisation of `RegexpQuery` keeps an inline `(?i)`**: a literal regexp carrying the
     FoldCase flag is searched case-insensitively whatever the query's case setting, and a literal without it follows
     the query's setting. (Before the fix `(?i)foo` became a case-sensitive search for `FOO`.) -/
